@@ -36,7 +36,7 @@ def strategy(tier):
         "patterns": st.lists(pat, min_size=0, max_size=4),
         "recursive": st.sampled_from([True, True, True, False]),
         "auto": st.booleans(),
-        "prefix": st.one_of(st.none(), st.sampled_from(["pfx", "My.Proj"])),
+        "prefix": st.one_of(st.none(), st.sampled_from(["pfx", "My.Proj", "cmake/modules", "pkg/", "a.b."])),
         "order": st.one_of(st.none(), st.lists(st.integers(0, 11), min_size=1, max_size=8)),
         # outside the carve-out (directories whose CMake files all have a non-lower-case extension, auto-exclusion on)
         # only the closure invariant is asserted: it needs no model of which directories are processed
@@ -203,6 +203,9 @@ def evaluate(case):
                 rel = d.replace("/", ".")
                 if page.title is None or not (page.title.endswith(d) or page.title.endswith(rel)):
                     res.fail("index-title-sub", f"{idx}: title {page.title!r} does not name the directory {d!r}")
+                elif not page.title.startswith(prefix + "."):
+                    # "names the directory" below "the prefix for the top directory": prefix, separator, relative path
+                    res.fail("index-title-sub", f"{idx}: title {page.title!r} does not start with the prefix {prefix!r} and the separator")
         for t, idxs in index_titles.items():
             if len(idxs) > 1:
                 # a title names its directory: two directories cannot share one
